@@ -105,4 +105,10 @@ CHECKS = {
         "assumptions": ["datagrams from another port of the queried address are generated but not judged", "IP transport; SCION source/destination and packet-authenticator checks are part of C13"],
         "timeout_quick": 600, "timeout_thorough": 2400,
     },
+    "C13": {
+        "pkg": "c13", "shards": 8, "env": {"USE_MOCK_KEYS": "true"},
+        "rule": "rapid-generated SCION packets probing the real SCION listener (service and end-host port) and end-to-end exchanges of the real SCION client through a tampering relay.",
+        "assumptions": ["USE_MOCK_KEYS=true: both sides use the all-zero host-to-host key without a SCION daemon; real DRKey derivation and key epochs are not reachable offline", "scionproto's slayers/spao (the library the project uses) is trusted for MAC input layout and parsing", "address type/length combinations, path types and authenticator option lengths that make the listener panic are excluded here and owned by C08"],
+        "timeout_quick": 600, "timeout_thorough": 2400,
+    },
 }
